@@ -69,11 +69,8 @@ func gr4jParams(r *Rng) []float64 {
 	// Numerical conditioning: with a strongly negative exchange coefficient and a tiny routing store the daily map
 	// R -> R + Q9 + x2 (R/x3)^3.5 has slope 1 - 3.5 |x2|/x3 (R/x3)^2.5 < -1: the recurrence oscillates chaotically and
 	// amplifies the <= 3 ulp differences between Go's math.Pow and libm to 1e-5 and more within a few hundred days.
-	// The 1e-9 correspondence is therefore drawn with |x2| <= x3/2 when x2 < 0 (all of x3 >= 20 mm, i.e. the whole
-	// 80 % range of calibrated catchments); the excluded corner is run oracle-only (variant GR4J#stiff).
-	if x2 < -0.5*x3 {
-		x2 = -0.5 * x3 * r.F01()
-	}
+	// Such cases are removed by the conditioning filter below (the series is shortened until the case is well
+	// conditioned, so the `R < 0` clip stays covered); the corner is also run oracle-only (variant GR4J#stiff).
 	return []float64{Snap(r, x1), x2, x3, gr4jX4(r)}
 }
 
